@@ -101,6 +101,7 @@ func LoadProgram(goos, goarch string, allBodies bool) (*Program, error) {
 		return nil, fmt.Errorf("load/type errors: %s", strings.Join(errs, "; "))
 	}
 	p := &Program{Norm: norm, Fset: pkgs[0].Fset, Roots: pkgs, ByPath: map[string]*packages.Package{}, GOOS: goos, GOARCH: goarch}
+	theProgram = p
 	packages.Visit(pkgs, nil, func(q *packages.Package) { p.ByPath[q.PkgPath] = q })
 	prog, _ := ssautil.AllPackages(pkgs, ssa.InstantiateGenerics)
 	p.SSA = prog
@@ -564,3 +565,6 @@ func (r *Report) ruleText(id string) string {
 	}
 	return ""
 }
+
+// theProgram: the program currently analysed (used by the abstract evaluator to resolve package initialisers).
+var theProgram *Program
